@@ -1,6 +1,7 @@
 package dkgnet
 
 import (
+	"sync"
 	"sync/atomic"
 	"bytes"
 	"encoding/binary"
@@ -147,18 +148,34 @@ func newC09World(seed uint64, scheme string, withLeaver bool) (*c09World, error)
 // capture runs f with an interceptor that records (and swallows) every gossip packet of the given kind; returns the first.
 func (w *c09World) capture(kind string, f func() error) (*pdkg.GossipPacket, error) {
 	var got *pdkg.GossipPacket
+	var mu sync.Mutex
 	w.bus.Intercept = func(m *Msg, p *pdkg.GossipPacket) *pdkg.GossipPacket {
 		if m.Kind == kind {
+			mu.Lock()
 			if got == nil {
 				got = proto.Clone(p).(*pdkg.GossipPacket)
 			}
+			mu.Unlock()
 			return nil
 		}
 		return p
 	}
 	err := f()
-	time.Sleep(20 * time.Millisecond) // gossip goroutines
+	// the gossip goroutines run on their own: wait for the packet (on a busy machine they can be late), then a little longer
+	// so that the copies for the other recipients are swallowed as well
+	for i := 0; i < 600; i++ {
+		mu.Lock()
+		ok := got != nil
+		mu.Unlock()
+		if ok || err != nil && i > 40 {
+			break
+		}
+		time.Sleep(5 * time.Millisecond)
+	}
+	time.Sleep(20 * time.Millisecond)
 	w.bus.Intercept = nil
+	mu.Lock()
+	defer mu.Unlock()
 	return got, err
 }
 
